@@ -26,15 +26,16 @@ def ret_code(r, exc):
 class RecLock(sched.SchedLock):
     """SchedLock that also records the order in which critical sections start."""
 
-    def __init__(self, s, reentrant, name, world):
-        super().__init__(s, reentrant, name)
+    def __init__(self, s, reentrant, name, world, record=True, group=None):
+        super().__init__(s, reentrant, name, group)
         self.world = world
+        self.record = record
 
     def acquire(self, blocking=True, timeout=-1):
         tid = self.sched.current_tid()
         outer = not (self.owner == tid and self.count > 0)
         r = super().acquire(blocking, timeout)
-        if outer and tid is not None:
+        if outer and tid is not None and self.record:
             self.world.coarse.append(tid)
         return r
 
@@ -66,8 +67,11 @@ class World:
         self.stores = C4._mk_stores(M, case["stores"])
         self.coarse = []             # tid of each outermost critical section, in order
         for i, st in enumerate(self.stores):
-            reent = type(st._lock).__name__ == "RLock"
-            st._lock = RecLock(s, reent, i, self)
+            # every lock object the store owns is put under the scheduler's control, not only `_lock`
+            for attr, v in list(vars(st).items()):
+                if type(v).__name__ in ("lock", "RLock"):
+                    setattr(st, attr, RecLock(s, type(v).__name__ == "RLock", f"{i}.{attr}", self,
+                                              record=(attr == "_lock"), group=i))
         self.results = [[] for _ in case["threads"]]
         self.fns = []
         for tid, prog in enumerate(case["threads"]):
@@ -187,6 +191,11 @@ class C05(Check):
          "threads": [[["consume", 0, 8, "ATP", False, 0], ["convert", 0, 5]], [["consume", 0, 6, "ATP", False, 0]]]},
         {"stores": [{"budget": 10, "gtp": 0, "nadh": 4, "max_debt": 0, "rate": 0.5}],
          "threads": [[["consume", 0, 7, "ATP", False, 0], ["convert", 0, 4]], [["convert", 0, 4]]]},
+        # ATP spend topping up from the NADH reserve vs. a direct NADH spend / transfer of the same reserve
+        {"stores": [{"budget": 5, "gtp": 0, "nadh": 3, "max_debt": 0, "rate": 0.5}],
+         "threads": [[["consume", 0, 7, "ATP", False, 0]], [["consume", 0, 3, "NADH", False, 0]]]},
+        {"stores": [{"budget": 5, "gtp": 0, "nadh": 4, "max_debt": 0, "rate": 0.5}, {"budget": 5, "gtp": 0, "nadh": 4, "max_debt": 0, "rate": 0.5}],
+         "threads": [[["consume", 0, 8, "ATP", False, 0]], [["transfer", 0, 1, 3, "NADH"], ["regen", 0, 2, "NADH"]]]},
         # spend with NADH top-up vs convert
         {"stores": [{"budget": 5, "gtp": 0, "nadh": 3, "max_debt": 5, "rate": 0.5}],
          "threads": [[["consume", 0, 8, "ATP", True, 0]], [["convert", 0, 3], ["regen", 0, 5, "ATP"]]]},
